@@ -10,6 +10,7 @@
 (*           "CT" Content-Type    "UK" X-Unknown       ":" colon           *)
 (*           "0" "1" "2" digits   "-" minus  "+" plus  "j" a junk letter   *)
 (*           "big" 20 nines       "mt" the channel's mime type  "ot" other *)
+(*           "LONG" 5000 junk letters (longer than a bufio buffer)         *)
 (*           "sp" space  "CR" "LF"   "x" "y" payload bytes                 *)
 (*                                                                         *)
 (* An outcome is [k |-> "rec", data |-> Seq(symbol), cterr |-> BOOLEAN]    *)
@@ -138,7 +139,8 @@ HTok == << <<"CL", ":", "sp", "2", "CR", "LF">>,       \* 1 Content-Length: 2
            <<"LF">>,                                    \* 13 blank, LF only
            <<"x">>, <<"y", "x">>,                       \* 14 15 payload bytes
            <<"CL", ":", "sp", "1", "2", "CR", "LF">>,   \* 16 Content-Length: 12
-           <<"CL", ":", "sp", "2">> >>                  \* 17 header line without terminator
+           <<"CL", ":", "sp", "2">>,                    \* 17 header line without terminator
+           <<"UK", ":", "sp", "LONG", "CR", "LF", "CL", ":", "sp", "2", "CR", "LF">> >>   \* 18 an unknown field longer than any read buffer, then Content-Length: 2
 
 RECURSIVE Flatten(_)
 Flatten(ts) == IF ts = <<>> THEN <<>> ELSE HTok[Head(ts)] \o Flatten(Tail(ts))
